@@ -6,7 +6,8 @@ CONSTANTS
   BaseSeq <- BasesQuick
   WrapSeq <- WrapsAll
   RenSeq <- RensMC
-  DocSet = {FALSE}
+  DocSet = {""}
+  IntFull = FALSE
   Family = "all"
   MaxFields = 2
   MaxDepth = 6
